@@ -26,6 +26,10 @@ func (s pendingTimeout) Timeout(session *session, event internal.Event) (nextSta
 	case internal.PeerTimeout:
 		session.log.OnEvent("Session Timeout")
 		return latentState{}
+	case internal.NeedHeartbeat:
+		// No heartbeat while the test request is pending, but the timer is one-shot: arm it again, or no
+		// heartbeat is sent after the pending disconnect has been cancelled until something else is sent.
+		session.stateTimer.Reset(session.HeartBtInt)
 	}
 
 	return s
